@@ -1094,6 +1094,11 @@ func (c *SpecCtx) evalCall(e *ECall) Val {
 		v := c.eval(e.Args[1])
 		c.st, c.inOld = saveSt, saveIn
 		return v
+	case "boxed":
+		// boxed(x): the interface value a conversion of x to an interface type yields (dynamic type tag and payload),
+		// for comparing an interface-typed argument with the concrete value it was made from
+		v := c.eval(e.Args[0])
+		return Val{T: fmt.Sprintf("(mk-iface %d %s)", enc.typeTag(v.Typ), c.vc.box(v.Typ, v.T)), Typ: types.NewInterfaceType(nil, nil).Complete()}
 	case "reached":
 		// reached(k): the header of loop k of this function has been reached on the path so far (with partial
 		// correctness: the loop has then run to its exit before anything after it executes)
